@@ -24,7 +24,7 @@ def main():
         from sgzv import anchors
         ctx.anchor = anchors.status(a.pid)
         if ctx.anchor['changed']:
-            ctx.boost = 4
+            ctx.boost = {'C12': 2, 'C16': 2, 'C01': 3}.get(a.pid, 4)   # (the slow checks stay within a few minutes)
             ctx.notes.append('anchored source differs from the tree the model was validated against '
                              f"({ctx.anchor['recorded_at']}): {ctx.anchor['changed']}; quick counts x{ctx.boost}")
         mod = importlib.import_module(f'sgzv.props.{a.pid.lower()}')
